@@ -1,6 +1,8 @@
 import XtModel.Model.Wire
 import XtModel.Model.Encoding
 import XtModel.Model.TranscodeWire
+import XtModel.Model.Chunker
+import XtModel.Model.Output
 import XtModel.Model.TomlOrder
 
 /-!
@@ -102,12 +104,158 @@ def tomlorder (fs : List String) : String :=
     | _ => "bad-case"
   | _ => "bad-case"
 
+/-! ### chunker: `chunker <events> <stream-hex> [debug]`, `guards <size> <reported> <written>` -/
+def kindOfTok : String → Option Chunker.Kind
+  | "NO" => some .noEvent | "SS" => some .streamStart | "SE" => some .streamEnd
+  | "DS" => some .docStart | "DE" => some .docEnd | "AL" => some .alias | "SC" => some .scalar
+  | "QS" => some .seqStart | "QE" => some .seqEnd | "MS" => some .mapStart | "ME" => some .mapEnd
+  | _ => none
+
+def siteName : Chunker.Site → String
+  | .trimSub => "trimSub" | .trimTryFrom => "trimTryFrom" | .drainRange => "drainRange"
+  | .trimIndex => "trimIndex" | .trimOffsetDec => "trimOffsetDec"
+  | .takeSub => "takeSub" | .takeTryFrom => "takeTryFrom" | .splitOffRange => "splitOffRange"
+  | .fromUtf8 => "fromUtf8" | .readSlice => "readSlice"
+
+/-- `K:start:stop[:readOff]`; without the fourth field the whole stream has
+been read when the event arrives. -/
+def parseEv (total : Nat) (tok : String) : Option Chunker.Ev :=
+  match tok.splitOn ":" with
+  | [k, a, b] => do some ⟨← kindOfTok k, ← a.toNat?, ← b.toNat?, total⟩
+  | [k, a, b, r] => do some ⟨← kindOfTok k, ← a.toNat?, ← b.toNat?, ← r.toNat?⟩
+  | _ => none
+
+def parseEvents (total : Nat) (s : String) : Option (List Chunker.Ev × Bool) :=
+  if s = "-" then some ([], false) else
+  let toks := s.splitOn ","
+  let (toks, err) := if toks.getLast? = some "ERR" then (toks.dropLast, true) else (toks, false)
+  (toks.mapM (parseEv total)).map fun evs => (evs, err)
+
+def chunkerAnswer (r : Chunker.Result) : String :=
+  let docs := r.emits.map fun e =>
+    "doc:" ++ toHex e.doc.content ++ ":" ++ (if e.doc.isCollection then "c" else "n")
+  let fin := match r.fin with
+    | .done => "end" | .err => "err" | .incomplete => "incomplete"
+    | .panic s => "panic:" ++ siteName s
+  " ".intercalate (docs ++ [fin])
+
+def chunker (fs : List String) : String :=
+  match fs with
+  | "chunker" :: evs :: hex :: rest =>
+    match parseHex hex with
+    | some stream =>
+      match parseEvents stream.length evs with
+      | some (evs, err) => chunkerAnswer (Chunker.chunks (rest = ["debug"]) stream evs err)
+      | none => "bad-case"
+    | none => "bad-case"
+  | ["guards", size, reported, written] =>
+    match size.toNat?, reported.toNat?, written.toNat? with
+    | some size, some reported, some written =>
+      let res := Chunker.ReadRes.ok reported (List.replicate written 0x61)
+      let h := Chunker.readHandler false size none res
+      let hTok := match h.copyLen, h.stash with
+        | some _, _ => "handler:accept"
+        | none, some .misbehaving => "handler:misbehaving"
+        | none, _ => "handler:failure"
+      let cTok := match Chunker.handlerOverChunkReader size [] none ⟨[], 0⟩ res with
+        | .panic s => "chunker:panic:" ++ siteName s
+        | .ok (h, _) => match h.copyLen with
+          | some _ => "chunker:accept"
+          | none => "chunker:failure"
+      hTok ++ " " ++ cTok
+    | _, _, _ => "bad-case"
+  | _ => "bad-case"
+
+/-! ### output: `frame <fmt> <script>`, `tomlout <script>`
+
+Scripts: calls separated by `/`, items of a call by `,`; `-` is a call with no
+document; a trailing item `F` is a source-side failure after the documents.
+`frame` items are body hex, with a `!` suffix when the document fails after
+writing those bytes.  `tomlout` items are document classes. -/
+structure FrameDoc where
+  body : List Nat
+  fails : Bool
+
+def frameEnv : Output.Env FrameDoc Nat Nat where
+  body := fun _ d => (d.body, if d.fails then some 1 else none)
+  build := fun _ => .error 0
+  isTable := fun _ => false
+  pretty := fun _ => .error 0
+
+def targetOfTok : String → Option Output.Target
+  | "json" => some .json | "yaml" => some .yaml | "msgpack" => some .msgpack | "toml" => some .toml
+  | _ => none
+
+def parseCall {D : Type} (item : String → Option D) (s : String) : Option (Output.Input D Nat) :=
+  if s = "-" then some ⟨[], none⟩ else
+  let toks := s.splitOn ","
+  let (toks, fail) := if toks.getLast? = some "F" then (toks.dropLast, some 2) else (toks, none)
+  (toks.mapM item).map fun ds => ⟨ds, fail⟩
+
+def parseFrameDoc (tok : String) : Option FrameDoc :=
+  if tok.endsWith "!" then (parseHex (tok.dropEnd 1).toString).map (⟨·, true⟩)
+  else (parseHex tok).map (⟨·, false⟩)
+
+def verdictTok : Except (Output.Err Nat) Unit → String
+  | .ok _ => "ok"
+  | .error .multiDocument => "multi"
+  | .error .nonTableRoot => "nontable"
+  | .error (.other _) => "other"
+
+inductive TomlClass where
+  | table | nontable | reject | srcerr | prettyerr
+  deriving DecidableEq
+
+structure TomlDoc where
+  call : Nat
+  idx : Nat
+  cls : TomlClass
+
+def tomlEnv : Output.Env TomlDoc Nat TomlDoc where
+  body := fun _ _ => ([], none)
+  build := fun d => match d.cls with
+    | .reject => .error 3
+    | .srcerr => .error 4
+    | _ => .ok d
+  isTable := fun v => v.cls = .table || v.cls = .prettyerr
+  pretty := fun v => if v.cls = .prettyerr then .error 5 else .ok [v.call, v.idx]
+
+def tomlClassOfTok : String → Option TomlClass
+  | "table" => some .table | "nontable" => some .nontable | "reject" => some .reject
+  | "srcerr" => some .srcerr | "prettyerr" => some .prettyerr | _ => none
+
+def indexCalls (cs : List (Output.Input TomlClass Nat)) : List (Output.Input TomlDoc Nat) :=
+  (cs.zipIdx).map fun (c, i) => ⟨(c.docs.zipIdx).map fun (k, j) => ⟨i, j, k⟩, c.fail⟩
+
+def output (fs : List String) : String :=
+  match fs with
+  | ["frame", fmt, script] =>
+    match targetOfTok fmt, (script.splitOn "/").mapM (parseCall parseFrameDoc) with
+    | some t, some inputs =>
+      let (o, rs) := Output.calls frameEnv t Output.Out.empty inputs
+      " ".intercalate (toHex o.sink :: rs.map verdictTok)
+    | _, _ => "bad-case"
+  | ["tomlout", script] =>
+    match (script.splitOn "/").mapM (parseCall tomlClassOfTok) with
+    | some cs =>
+      let (o, rs) := Output.calls tomlEnv .toml Output.Out.empty (indexCalls cs)
+      let w := match o.pieces with
+        | [] => "w:-"
+        | ps => " ".intercalate (ps.map fun p => match p with
+            | [i, j] => s!"w:{i}.{j}"
+            | _ => "w:?")
+      " ".intercalate (rs.map verdictTok ++ [w])
+    | none => "bad-case"
+  | _ => "bad-case"
+
 def answer (fs : List String) : String :=
   match fs with
   | "encdetect" :: _ | "reencode" :: _ | "reencstream" :: _ => encoding fs
   | ["transcode", tree, script] => Xt.TranscodeWire.runTranscode tree script
   | ["valuepath", tree, script] => Xt.TranscodeWire.runValuePath tree script
   | "tomlorder" :: _ => tomlorder fs
+  | "chunker" :: _ | "guards" :: _ => chunker fs
+  | "frame" :: _ | "tomlout" :: _ => output fs
   | _ => "bad-engine"
 
 partial def loop (h : IO.FS.Stream) (out : IO.FS.Stream) : IO Unit := do
